@@ -1,0 +1,116 @@
+/* Verification hooks for the signer side (keygen / sign), used by the /verif machinery.
+ *
+ * Everything in this file is compiled only with -DSQISIGN_SQISIGN2D_WEST_AC24_VERIF; without the
+ * define the header is empty and the library is byte-for-byte what it was.
+ *
+ * H1  response steering (sample_response of the three protocol variants):
+ *       SQI_VERIF_H1_V2=k      accept only candidate responses whose degree has 2-adic valuation k
+ *       SQI_VERIF_H1_BT=b      accept only candidates with backtracking b
+ *       SQI_VERIF_H1_TRIES=n   extra rounds of 50 draws of the candidate loop per lattice (default 10)
+ *       SQI_VERIF_H1_REUSE_COMMIT=1  keep the first commitment of the process and use it again
+ *     When no candidate meets the steering protocols_sign returns the hook-only code -1 ("steering
+ *     unmet"); the harness then signs another message.
+ *     The steering never changes a value: it only rejects candidates, so every state reached is a
+ *     state of the unhooked signer for some random tape.
+ * H2  failure injection:
+ *       SQI_VERIF_H2=site:a[-b|+]   force found = 0 at calls a..b (1-based, counted from the moment the
+ *                                   variable takes this value) of `site`, one of
+ *                                   find_uv, fixed_degree_isogeny, represent_integer,
+ *                                   represent_integer_non_diag
+ *     each firing prints "verif-h2: fired <site> call <n>" on stderr.
+ * H2b basis hints:
+ *       SQI_VERIF_HINT20=1     ec_curve_to_point_2f_{not_,}above_montgomery start at hint 20
+ *                              (as if the 20 table candidates had failed)
+ */
+#ifndef VERIF_SIGN_HOOKS_H
+#define VERIF_SIGN_HOOKS_H
+#ifdef SQISIGN_SQISIGN2D_WEST_AC24_VERIF
+
+#include <stdio.h>
+#include <stdlib.h>
+#include <string.h>
+
+static inline int
+verif_env_int(const char *name, int dflt)
+{
+    const char *s = getenv(name);
+    if (s == NULL || *s == 0)
+        return dflt;
+    return atoi(s);
+}
+
+static inline int
+verif_h1_active(void)
+{
+    const char *a = getenv("SQI_VERIF_H1_V2"), *b = getenv("SQI_VERIF_H1_BT");
+    return (a != NULL && *a != 0) || (b != NULL && *b != 0);
+}
+
+/* does a candidate with valuation v2 and backtracking bt satisfy the steering? */
+static inline int
+verif_h1_accept(int v2, int bt)
+{
+    const char *a = getenv("SQI_VERIF_H1_V2"), *b = getenv("SQI_VERIF_H1_BT");
+    if (a != NULL && *a != 0 && atoi(a) != v2)
+        return 0;
+    if (b != NULL && *b != 0 && atoi(b) != bt)
+        return 0;
+    return 1;
+}
+
+/* cheap necessary condition on w = v2(n(x)/content) before the exact test: w = v2 + bt and v2 >= bt >= 0 */
+static inline int
+verif_h1_precheck(int w)
+{
+    const char *a = getenv("SQI_VERIF_H1_V2"), *b = getenv("SQI_VERIF_H1_BT");
+    int ha = (a != NULL && *a != 0), hb = (b != NULL && *b != 0);
+    if (ha && hb)
+        return w == atoi(a) + atoi(b);
+    if (ha)
+        return w >= atoi(a);
+    if (hb)
+        return w >= 2 * atoi(b);
+    return 1;
+}
+
+/* 1 when the current call of `site` must report failure */
+static inline int
+verif_h2_fail(const char *site)
+{
+    static char last[96];
+    static int count;
+    const char *s = getenv("SQI_VERIF_H2");
+    if (s == NULL || *s == 0)
+        return 0;
+    size_t n = strlen(site);
+    if (strncmp(s, site, n) != 0 || s[n] != ':')
+        return 0;
+    if (strncmp(last, s, sizeof(last) - 1) != 0) {
+        strncpy(last, s, sizeof(last) - 1);
+        last[sizeof(last) - 1] = 0;
+        count = 0;
+    }
+    count++;
+    int a = atoi(s + n + 1), b = a;
+    const char *p = s + n + 1;
+    while (*p >= '0' && *p <= '9')
+        p++;
+    if (*p == '+')
+        b = 0x7fffffff;
+    else if (*p == '-')
+        b = atoi(p + 1);
+    if (count >= a && count <= b) {
+        fprintf(stderr, "verif-h2: fired %s call %d\n", site, count);
+        return 1;
+    }
+    return 0;
+}
+
+static inline int
+verif_hint_start(void)
+{
+    return verif_env_int("SQI_VERIF_HINT20", 0) ? 20 : 0;
+}
+
+#endif
+#endif
